@@ -10,6 +10,7 @@ structure Ctx where
   elem : Elem
   prev : RState           -- root state before the op (from the harness's previous observation)
   fault : Bool := false   -- the op line carries a `!cmp:k` / `!key:k` fault token (sort comparator / key function made to panic)
+  faultK : Option Nat := none   -- `!clone:k` on a `clone_from` line: the k-th call of `T::clone` panics
 
 def Ctx.td (cx : Ctx) : TD Nat := ⟨cx.prev.data, cx.prev.r, cx.prev.c⟩
 
